@@ -31,6 +31,19 @@ type groupCandidates struct {
 	Candidates []Candidate
 }
 
+// assertNotNull returns an error if the submission requirement, or one of its nested submission requirements, is nil.
+func (submissionRequirement *SubmissionRequirement) assertNotNull() error {
+	if submissionRequirement == nil {
+		return errors.New("submission requirement is null")
+	}
+	for _, nested := range submissionRequirement.FromNested {
+		if err := nested.assertNotNull(); err != nil {
+			return fmt.Errorf("submission requirement (%s): nested %w", submissionRequirement.Name, err)
+		}
+	}
+	return nil
+}
+
 // groups returns all the group names from the 'from' field. It traverses the 'from_nested' field recursively.
 func (submissionRequirement SubmissionRequirement) groups() []string {
 	var result []string
